@@ -1,4 +1,5 @@
 import LexgenModel.Proofs.NextLocations
+import LexgenModel.Proofs.EndToEnd
 /-!
 # C06 — Spans and locations are exact, also after rewinding and across wide characters
 -/
@@ -27,5 +28,13 @@ theorem C06_action_views (cfg cfg' : Config σ τ ε) (hm : MachineOK cfg) (inpu
 /-- non-vacuity: a fresh lexer state is at a boundary -/
 example (w : Nat → Nat) (input : List Nat) : Boundary w input (initState () input) :=
   ⟨rfl, 0, 0, Nat.le_refl _, Nat.zero_le _, by simp [initState], by simp [initState, locAt], by simp [initState, locAt]⟩
+
+/-- …for every well-formed definition the model compiles. -/
+theorem C06_locations_compiled (items : LexerDef) (c : Compiled) (h : compileLexer items = .ok c) (hok : DefOK items)
+    (actions : Nat → Action σ τ ε) (width : Nat → Nat) (inp : Option (List Nat)) (input : List Nat) (st : LState σ)
+    (hb : Boundary width input st) (item : Option (Item τ ε)) (st' : LState σ)
+    (hn : next (c.config actions width inp) st = some (item, st')) :
+    Boundary width input st' ∧ ItemLocOK width input item :=
+  next_boundary (c.config actions width inp) (compileLexer_machineOK items c h hok actions width inp) input st hb item st' hn
 
 end Lexgen
